@@ -17,6 +17,7 @@ twins      named pipe: real FIFOs, Server and Client in two real threads, every 
 from __future__ import annotations
 
 import asyncio
+import concurrent.futures
 import itertools
 import pickle
 
@@ -341,15 +342,23 @@ class ClientExec(Exec):
 
         SK.open_unix_connection = fake_open
         s.exit_hooks.append(lambda: setattr(SK, 'open_unix_connection', ORIG['open']))
+        if cfg.get('ids'):
+            # request ids are id(future): every legal behaviour of the allocator (fresh, or any id whose object is gone)
+            from checks.srv import IdAllocator
+            SK.id = IdAllocator(s)
+            s.exit_hooks.append(lambda: SK.__dict__.pop('id', None))
+        timeouts = cfg.get('timeouts', {})
         res = {}
         with SK.SocketClient(path='/tmp/not-used', num_connections=cfg['conns'], backlog=cfg.get('backlog', 8)) as client:
             def requester(k, xs):
                 out = []
                 for x in xs:
                     try:
-                        out.append((x, norm(client.request('/r', x, response_timeout=500))))
+                        out.append((x, norm(client.request('/r', x, response_timeout=timeouts.get(str(x), 500)))))
                     except Boom as e:
                         out.append((x, norm(e)))
+                    except concurrent.futures.TimeoutError:
+                        out.append((x, ('TIMEOUT',)))
                     except Exception as e:
                         out.append((x, ('FAILED', type(e).__name__, str(e)[:80])))
                 res[k] = out
@@ -377,6 +386,8 @@ class ClientExec(Exec):
         res, served = r.value
 
         def want(x):
+            if str(x) in cfg.get('timeouts', {}):
+                return ('TIMEOUT',)      # (the harness makes this request's handler slower than its deadline)
             return ('EXC', 'Boom', ('remote', x)) if x == cfg.get('fail') else ('resp', x)
 
         for k, xs in enumerate(cfg['reqs']):
@@ -415,6 +426,12 @@ class ClientH(Harness):
         for durs in ([0, 0, 0], [2, 1, 0], [0, 3, 1]):
             out.append(dict(conns=1, durs=durs, reqs=[[0, 1], [2]], bound=2 if quick else 3, cap=20000 if quick else 200000))
             out.append(dict(conns=2, durs=durs, reqs=[[0], [1, 2]], fail=1, bound=1 if quick else 2, cap=20000 if quick else 200000))
+        # a request that times out while the server is still working on it, followed by further requests on the same
+        # connection; ids from the model allocator
+        out.append(dict(conns=1, durs=[30, 1, 2, 40], reqs=[[0, 1, 2, 3]], timeouts={'0': 0.004}, ids=True, bound=1 if quick else 2,
+                        cap=20000 if quick else 200000))
+        out.append(dict(conns=1, durs=[30, 1, 2, 40], reqs=[[0, 1], [2, 3]], timeouts={'0': 0.004}, fail=0, ids=True, bound=0 if quick else 1,
+                        cap=20000 if quick else 200000))
         out.append(dict(conns=1, durs=[2, 1, 0], reqs=[[10]], stream=[0, 1, 2], fail=1, bound=1 if quick else 2,
                         cap=20000 if quick else 200000))
         return out
